@@ -90,8 +90,13 @@ def main():
     if a.keep is not None:
         d = os.path.join(VERIF, "seeded", a.pid + ("-" + a.keep if a.keep else ""))
         os.makedirs(d, exist_ok=True)
-        shutil.copy(patch, os.path.join(d, "patch.diff"))
-        shutil.copy(demo, d)
+        for f in (patch, demo):
+            if os.path.abspath(os.path.dirname(f)) != os.path.abspath(d):
+                shutil.copy(f, d)
+        prev = meta.get("evaluation")
+        if prev is not None:          # keep the history: a regression that was missed first and caught after strengthening
+            meta.setdefault("evaluation_history", []).append(dict(caught=prev.get("caught"), confirmed=prev.get("confirmed"),
+                                                                   check_lines=prev.get("check_lines", [])[:3]))
         meta["evaluation"] = res
         meta["ran"] = "python -m vlib.seeded %s %s  (demo on unchanged/patched scratch worktree, touched modules' tests, ./check %s --tier %s with NFCPY_SRC=<patched copy>)" % (a.pid, src, a.pid, a.tier)
         json.dump(meta, open(os.path.join(d, "meta.json"), "w"), indent=1)
